@@ -49,7 +49,43 @@ def obj_xml(kind, o):
         o["id"], o["v"], "".join('<property tag="k" value="%d"/>' % k for k in o["kids"]))
 
 
+def build_parsed(case):
+    """the document comes from the PARSER (every component knows its parent_object_).  build = "parsed": as written;
+    build = "moved": definitions marked from_cell were parsed as the embedded child of that cell and are then made
+    stand-alone and referenced back: doc.<list>.append(cell.x); cell.x = None; cell.x_attr = id"""
+    from neuroml.nml.nml import parseString
+    cells = [dict(c, m=dict(c["m"]), b=dict(c["b"])) for c in case["cells"]]
+    top = {"m": [], "b": []}
+    moved = []
+    for kind, key in (("m", "morphs"), ("b", "bios")):
+        for o in case[key]:
+            if o.get("from_cell") is None:
+                top[kind].append(o)
+            else:
+                moved.append((kind, o))
+                cells[o["from_cell"]][kind] = {"attr": None, "emb": o}
+    body = "".join('<include href="%s"/>' % f["href"] for f in case["incs"])
+    body += "".join(obj_xml("m", o) for o in top["m"]) + "".join(obj_xml("b", o) for o in top["b"])
+    body += "".join(cell_xml(c) for c in cells if c["list"] == "cells")
+    body += "".join(cell_xml(c) for c in cells if c["list"] == "cells2")
+    doc = parseString('<neuroml %s id="d">%s</neuroml>' % (NS, body), silence=True)
+    objs = all_cells(doc)
+    for kind, o in moved:
+        cell = objs[o["from_cell"]]
+        if kind == "m":
+            doc.morphology.append(cell.morphology)
+            cell.morphology = None
+            cell.morphology_attr = o["id"]
+        else:
+            doc.biophysical_properties.append(cell.biophysical_properties)
+            cell.biophysical_properties = None
+            cell.biophysical_properties_attr = o["id"]
+    return doc
+
+
 def build(case):
+    if case.get("build", "api") != "api":
+        return build_parsed(case)
     doc = neuroml.NeuroMLDocument(id="d")
     for inc in case["incs"]:
         doc.includes.append(neuroml.IncludeType(href=inc["href"]))
@@ -204,6 +240,7 @@ def run(case, overwrite, keep=False, doc=None):
         r["out_lists"] = [val(o) for o in list(out.morphology) + list(out.biophysical_properties)]
         r["pattern"] = relabel(before + after)
         r["same_doc"] = out is doc
+        r["hidden_docs"] = hidden_docs(out)
         r["dump_out"] = dump(out)
         # independence, directly on identities: a newly embedded subtree shares no object with anything else
         old_ids = set(id(o) for o in before)
@@ -245,6 +282,21 @@ def run(case, overwrite, keep=False, doc=None):
                    "input_same": True if overwrite else in_before == dump(doc)}
     r["mutation"] = mut
     return r
+
+
+def parent_kinds(case):
+    """what parent_object_ of the elements a cell refers to is, in the document as built (coverage only)"""
+    doc = build(case)
+    cells = all_cells(doc)
+    out = set()
+    for c in cells:
+        for attr, lst in ((c.morphology_attr, doc.morphology), (c.biophysical_properties_attr, doc.biophysical_properties)):
+            for o in lst:
+                if attr is not None and o.id == attr:
+                    p = getattr(o, "parent_object_", None)
+                    out.add("none" if p is None else "document" if p is doc else "referring-cell" if p is c else
+                            "another-cell" if any(p is x for x in cells) else "other")
+    return sorted(out)
 
 
 def cell_xml(c):
@@ -363,6 +415,8 @@ def exec_case(case, root, keep=False):
         res = {"false": rf, "true": run(case, True, keep, doc=doc)}
     else:
         res = {"true": run(case, True, keep), "false": run(case, False, keep)}
+        if case.get("build", "api") != "api":
+            res["parent_kinds"] = parent_kinds(case)
     if case.get("via_parser"):
         res["parser"] = run_parser(case, root)
     return res
